@@ -50,7 +50,7 @@ class E3Config:
         b = self.base.brief()
         b.update({'backend': self.backend, 'max_workers': self.max_workers, 'cpu_count': self.cpu_count})
         if self.die_exit0:
-            b['die_exit0'] = True
+            b['die_exit0'] = self.die_exit0
         if self.monitor:
             b['displays'] = 'on'
         if self.linger:
@@ -220,8 +220,8 @@ def run_once_e3(cfg: E3Config, chooser: Chooser, *, world_hook=None, around_run=
                 [lab.is_cached(t) for t in built.canon]
             try:
                 with quiet, (around_run(world) if around_run is not None else contextlib.nullcontext()):
-                    res = lab.run_tasks(req, **({'bust_cache': True} if base.bust_cache else {}), disable_progress=not cfg.monitor, disable_top=not cfg.monitor,
-                                        **({'top_n': 1} if cfg.monitor else {}))     # a display smaller than the number of workers
+                    res = e2.call_run(lab, req, base, disable_progress=not cfg.monitor, disable_top=not cfg.monitor,
+                                      **({'top_n': 1} if cfg.monitor else {}))     # a display smaller than the number of workers
                 outcome = ('return', res)
             except (Spin, Livelock) as e:
                 outcome = ('spin', e)
